@@ -15,6 +15,8 @@ def proved(run):
             f(run)
         except (I.OutOfSubset, KeyError) as e:
             run.obligation("C03/" + f.__name__, "out-of-subset", detail=str(e))
+    from props import resolves as _res
+    _res.budget_obligation(run, "C03")
 
 
 # ------------------------------------------------------------------------------------------------ CFG.derivative
